@@ -35,9 +35,18 @@ type injector struct {
 	at     int         // -1: none
 	mode   string      // "fail" | "conflict"
 	before func(k int) // pre-emption hook, called before effect k
+	after  func(k int) // pre-emption hook, called after the store call / request whose last effect is k returned
 	// noPreempt: the next effect is the entry half of a configuration write whose values half was
 	// counted just before: the real store call cannot be entered between the two
 	noPreempt bool
+}
+
+// done is called when the real store call (or southbound request) whose last counted effect is the
+// latest one has returned.
+func (i *injector) done() {
+	if i.after != nil {
+		i.after(i.n - 1)
+	}
 }
 
 func (i *injector) next() (k int, fail, conflict bool) {
@@ -64,6 +73,7 @@ func (s *txStore) UpdateStatus(ctx context.Context, t *configapi.Transaction) er
 	if fail {
 		return errInjected
 	}
+	defer s.inj.done()
 	if conflict {
 		v := t.Version
 		t.Version = v + 1000000
@@ -84,6 +94,7 @@ func (s *propStore) Create(ctx context.Context, p *configapi.Proposal) error {
 	if fail {
 		return errInjected
 	}
+	defer s.inj.done()
 	return s.Store.Create(ctx, p)
 }
 
@@ -92,6 +103,7 @@ func (s *propStore) UpdateStatus(ctx context.Context, p *configapi.Proposal) err
 	if fail {
 		return errInjected
 	}
+	defer s.inj.done()
 	if conflict {
 		v := p.Version
 		p.Version = v + 1000000
@@ -112,6 +124,7 @@ func (s *cfgStore) Create(ctx context.Context, c *configapi.Configuration) error
 	if fail {
 		return errInjected
 	}
+	defer s.inj.done()
 	return s.Store.Create(ctx, c)
 }
 
@@ -126,6 +139,7 @@ func (s *cfgStore) Update(ctx context.Context, c *configapi.Configuration) error
 	}
 	_, fail, conflict := s.inj.next()
 	s.inj.noPreempt = false
+	defer s.inj.done()
 	if fail || conflict {
 		// lose the entry compare-and-set after the values half took place: stale version
 		v := c.Version
@@ -147,6 +161,7 @@ func (s *cfgStore) UpdateStatus(ctx context.Context, c *configapi.Configuration)
 	}
 	_, fail, conflict := s.inj.next()
 	s.inj.noPreempt = false
+	defer s.inj.done()
 	if fail || conflict {
 		v := c.Version
 		c.Version = v + 1000000
@@ -329,6 +344,7 @@ type RunOpts struct {
 	InjectAt int
 	Inject   string
 	Before   func(k int)
+	After    func(k int)
 }
 
 var failureCodes = map[string]codes.Code{
@@ -352,13 +368,14 @@ type Result struct {
 func (s *Sys) Run(id string, o RunOpts) (res Result) {
 	// an invocation may run inside the pre-emption hook of another one: everything per-invocation is
 	// saved here and restored when this one returns
-	savedInj, savedRespond, savedSkip := *s.inj, s.Devs.Respond, s.Devs.SkipLog
+	savedInj, savedRespond, savedSkip, savedAfter := *s.inj, s.Devs.Respond, s.Devs.SkipLog, s.Devs.After
 	savedPresent, savedVerdict := s.Plugins.Present, s.Plugins.Verdict
 	defer func() {
-		*s.inj, s.Devs.Respond, s.Devs.SkipLog = savedInj, savedRespond, savedSkip
+		*s.inj, s.Devs.Respond, s.Devs.SkipLog, s.Devs.After = savedInj, savedRespond, savedSkip, savedAfter
 		s.Plugins.Present, s.Plugins.Verdict = savedPresent, savedVerdict
 	}()
-	s.inj.n, s.inj.at, s.inj.mode, s.inj.before, s.inj.noPreempt = 0, -1, "", o.Before, false
+	s.inj.n, s.inj.at, s.inj.mode, s.inj.before, s.inj.noPreempt, s.inj.after = 0, -1, "", o.Before, false, o.After
+	s.Devs.After = s.inj.done
 	if o.Inject != "" {
 		s.inj.at, s.inj.mode = o.InjectAt, o.Inject
 	}
